@@ -288,8 +288,8 @@ def absent_label_raises(ctx: Ctx) -> None:
     # who may pass partial_selection=True
     n_sites = 0
     for g in prog.all_funcs():
-        if isinstance(g.node, ast.Lambda):
-            continue
+        if isinstance(g.node, ast.Lambda) or getattr(g.node, '_sfa_fully_spliced', False):
+            continue        # a private helper all of whose calls were spliced into the callers is judged there
         for c in walk_local(g.node):
             if isinstance(c, ast.Call) and kwarg(c, 'partial_selection') is not None:
                 v = kwarg(c, 'partial_selection')
